@@ -26,7 +26,7 @@ ASSUMPTIONS = ['in-memory ZooKeeper fake; real filesystem under a temp dir', 'Ev
                'sys.monitoring LINE events as source-free failpoints (statement granularity)']
 BUDGET = {'quick': (22, 20.0), 'thorough': (900, 260.0)}
 REQUIRED_REACH = {'*': ['sync_calls', 'files_written_checked', 'extra_removed', 'outdated_rewritten', 'uptodate_kept',
-                        'crash_views', 'failpoints_raised', 'syscall_boundaries', 'big_manifest_points']}
+                        'crash_views', 'failpoints_raised', 'syscall_boundaries', 'big_manifest_points', 'subsecond_ctime_cases']}
 
 TOOL = 3
 
@@ -76,7 +76,8 @@ def run(ctx):
             expected_content = {}
             placed, state = [], {}
             for a in apps:
-                kind = rng.choice(['missing', 'missing', 'outdated', 'uptodate', 'extra', 'no-placement-node', 'no-manifest'])
+                kind = rng.choice(['missing', 'missing', 'outdated', 'outdated', 'uptodate', 'uptodate', 'extra', 'no-placement-node', 'no-manifest'])
+                subsecond = rng.random() < 0.5       # placement re-created within the same second as the file
                 big = rng.random() < 0.3
                 man = gen_manifest(rng, big)
                 pdata = {'identity': rng.choice([None, 0, 0, 1, 3]), 'identity_count': rng.choice([None, 4]),
@@ -90,6 +91,7 @@ def run(ctx):
                     zkutils.put(adm, z.path.placement(host, a), pdata)
                     ct = now + 1000 if kind == 'outdated' else now - 1000
                     srv.set_ctime(z.path.placement(host, a), ct * 1000)
+                    state[a]['subsecond'] = subsecond and kind in ('outdated', 'uptodate')
                 if kind != 'no-manifest':
                     zkutils.put(adm, z.path.scheduled(a), man)
                 exp = dict(man)
@@ -100,6 +102,12 @@ def run(ctx):
                 if kind in ('outdated', 'uptodate', 'extra'):
                     with open(os.path.join(cache, a), 'w') as f:
                         f.write('old: content\nof: %s\n' % a)
+                    if state[a].get('subsecond'):
+                        # the placement node was (re)created a fraction of a second after / before the file
+                        fct = os.stat(os.path.join(cache, a)).st_ctime
+                        delta = rng.choice([0.05, 0.3, 0.6]) if kind == 'outdated' else -rng.choice([0.05, 0.3, 0.6])
+                        srv.set_ctime(z.path.placement(host, a), int(round((fct + delta) * 1000)))
+                        ctx.count('subsecond_ctime_cases')
             if rng.random() < 0.5:
                 open(os.path.join(cache, '.ready'), 'w').close()
             if rng.random() < 0.4:
